@@ -94,6 +94,12 @@ def run(ctx):
     _quotient_power(ctx, model, dm)
     _linear_rules(ctx, model, dm)
     _entry(ctx, model, dm)
+    # wrappers are differentiated once per mapper instance through the caching
+    # mix-in, whose key does not contain the differentiation variable: the
+    # mix-in's rules (key, hit/miss paths, table per instance) are part of what
+    # makes d/dx and d/dy of the same expression independent
+    from .c05 import check_cse_mixin
+    check_cse_mixin(ctx, model)
 
 
 def _refusal(ctx, model, dm):
